@@ -328,6 +328,14 @@ func (d *ColumnDetector) findVerticalGaps(fragments []text.TextFragment, pageWid
 	// Build histogram of fragment density across X axis
 	// Use 5-point buckets for good resolution
 	bucketSize := 5.0
+	// The page width comes from the file's MediaBox: keep it within what a page can be
+	// (ISO 32000-1 Annex C: 14400 units) before sizing the histogram from it.
+	const maxPageExtent = 14400.0
+	if !(pageWidth > 0) {
+		pageWidth = 0
+	} else if pageWidth > maxPageExtent {
+		pageWidth = maxPageExtent
+	}
 	numBuckets := int(pageWidth/bucketSize) + 1
 	histogram := make([]int, numBuckets)
 
